@@ -1,5 +1,6 @@
 import Gen.Murmur
 import Model.Murmur
+import Proofs.C09Murmur
 /-!
   Tie theorems between the definitions REGENERATED from /repo/internal/murmur/murmur.go by tools/go2lean on every
   run (`Gen.Murmur`) and the hand-written model the C09 theorems are about (`Murmur`). If the Go source changes,
@@ -94,5 +95,123 @@ theorem tailFinish (data : List UInt8) (h1 h2 k1 k2 : BitVec 64) (hl : data.leng
   simp only [hK, hT, ← List.map_drop]
   rw [tailSwitch _ _ (Nat.mod_lt _ (by decide))]
   simp [swModel, Murmur.finish, fmix]
+
+/-! ### The whole function `Murmur3H1` (loop header, `getBlock` extern, tail, finalisation)
+
+  Since the translator handles counted `for` loops, `Murmur3H1` is translated as a whole (`Gen.Murmur.Murmur3H1`,
+  with the helper `Murmur3H1_loop1` by recursion on a fuel argument = the trip count `nBlocks - 0`). `getBlock`
+  (unsafe pointer code) is the one EXTERN: its Lean text is trusted and pinned to the Go source text it was written for. -/
+
+theorem le64_map (bs : List UInt8) : Gen.Murmur.le64 (bs.map (·.toBitVec)) = Murmur.le64 bs := by
+  induction bs with
+  | nil => rfl
+  | cons b bs ih =>
+    simp only [Gen.Murmur.le64, Murmur.le64, List.map_cons, List.foldr_cons, Murmur.zext] at *
+    rw [ih]
+
+theorem slt_small (i n : Nat) (h : i < n) (hn : n < 2^62) :
+    BitVec.slt (BitVec.ofNat 64 i) (BitVec.ofNat 64 n) = true := by
+  simp only [BitVec.slt, BitVec.toInt_eq_toNat_cond, BitVec.toNat_ofNat, decide_eq_true_eq]
+  have a : i % 2^64 = i := Nat.mod_eq_of_lt (by omega)
+  have b : n % 2^64 = n := Nat.mod_eq_of_lt (by omega)
+  rw [a, b]
+  have : 2 * i < 2^64 := by omega
+  have : 2 * n < 2^64 := by omega
+  simp [*]
+
+theorem getBlock_map (data : List UInt8) (i : Nat) (hi : i < 2^62) :
+    Gen.Murmur.getBlock (data.map (·.toBitVec)) (BitVec.ofNat 64 i) =
+      (Murmur.le64 (((data.drop (i*16)).take 16).take 8), Murmur.le64 ((((data.drop (i*16)).take 16).drop 8).take 8)) := by
+  have hi' : (BitVec.ofNat 64 i).toNat = i := by simp; omega
+  simp only [Gen.Murmur.getBlock, hi', ← List.map_drop, ← List.map_take, le64_map]
+  congr 2
+  · simp [List.take_take]
+  · rw [List.drop_take, List.take_take, List.drop_drop]; simp; 
+
+/-- one unfolding of the generated loop when the condition holds -/
+theorem loop_step (d : List (BitVec 8)) (nB : BitVec 64) (fuel : Nat) (i k1 k2 h1 h2 : BitVec 64)
+    (hc : BitVec.slt i nB = true) :
+    Gen.Murmur.Murmur3H1_loop1 d nB (fuel+1) i k1 k2 h1 h2 =
+      (let b := Gen.Murmur.getBlock d i
+       let r := Gen.Murmur.mixBody h1 h2 b.1 b.2
+       Gen.Murmur.Murmur3H1_loop1 d nB fuel (i + 1#64) r.1 r.2.2.1 r.2.1 r.2.2.2) := by
+  rw [Gen.Murmur.Murmur3H1_loop1]
+  simp only [hc, if_true]
+  rfl
+
+theorem loop (data : List UInt8) (nB : Nat) (hnB : nB < 2^61) :
+    ∀ (fuel i : Nat) (k1 k2 h1 h2 : BitVec 64), i + fuel = nB →
+      (let r := Gen.Murmur.Murmur3H1_loop1 (data.map (·.toBitVec)) (BitVec.ofNat 64 nB) fuel (BitVec.ofNat 64 i) k1 k2 h1 h2
+       (r.2.2.1, r.2.2.2)) = Murmur.bodyLoop data nB fuel (h1, h2) := by
+  intro fuel
+  induction fuel with
+  | zero => intro i k1 k2 h1 h2 _; simp [Gen.Murmur.Murmur3H1_loop1, Murmur.bodyLoop, Murmur.bodyLoopG]
+  | succ f ih =>
+    intro i k1 k2 h1 h2 hi
+    have hlt : i < nB := by omega
+    rw [loop_step _ _ _ _ _ _ _ _ (slt_small i nB hlt (by omega))]
+    have hadd : BitVec.ofNat 64 i + 1#64 = BitVec.ofNat 64 (i+1) := by
+      apply BitVec.eq_of_toNat_eq; simp
+    simp only [hadd]
+    have := ih (i+1) (Gen.Murmur.mixBody h1 h2 (Gen.Murmur.getBlock (data.map (·.toBitVec)) (BitVec.ofNat 64 i)).1 (Gen.Murmur.getBlock (data.map (·.toBitVec)) (BitVec.ofNat 64 i)).2).1
+      (Gen.Murmur.mixBody h1 h2 (Gen.Murmur.getBlock (data.map (·.toBitVec)) (BitVec.ofNat 64 i)).1 (Gen.Murmur.getBlock (data.map (·.toBitVec)) (BitVec.ofNat 64 i)).2).2.2.1
+      (Gen.Murmur.mixBody h1 h2 (Gen.Murmur.getBlock (data.map (·.toBitVec)) (BitVec.ofNat 64 i)).1 (Gen.Murmur.getBlock (data.map (·.toBitVec)) (BitVec.ofNat 64 i)).2).2.1
+      (Gen.Murmur.mixBody h1 h2 (Gen.Murmur.getBlock (data.map (·.toBitVec)) (BitVec.ofNat 64 i)).1 (Gen.Murmur.getBlock (data.map (·.toBitVec)) (BitVec.ofNat 64 i)).2).2.2.2
+      (by omega)
+    simp only at this
+    rw [this]
+    have hmb := mixBody h1 h2 (Gen.Murmur.getBlock (data.map (·.toBitVec)) (BitVec.ofNat 64 i)).1 (Gen.Murmur.getBlock (data.map (·.toBitVec)) (BitVec.ofNat 64 i)).2
+    simp only at hmb
+    rw [hmb, getBlock_map data i (by omega)]
+    have hidx : nB - (f+1) = i := by omega
+    simp only [Murmur.bodyLoop]
+    rw [Murmur.bodyLoopG]
+    simp only [hidx]
+
+
+theorem sdiv16 (n : Nat) (hn : n < 2^62) : BitVec.sdiv (BitVec.ofNat 64 n) 0x10#64 = BitVec.ofNat 64 (n / 16) := by
+  have hm : (BitVec.ofNat 64 n).msb = false := by
+    simp [BitVec.msb_eq_decide]; omega
+  have h16 : (0x10#64).msb = false := by decide
+  rw [BitVec.sdiv_eq, hm, h16]
+  apply BitVec.eq_of_toNat_eq
+  simp [BitVec.toNat_udiv]
+  omega
+
+theorem whole_unfold (d : List (BitVec 8)) :
+    Gen.Murmur.Murmur3H1 d =
+      (let length := BitVec.ofNat 64 d.length
+       let nBlocks := BitVec.sdiv length 0x10#64
+       let r := Gen.Murmur.Murmur3H1_loop1 d nBlocks ((nBlocks - 0x0#64).toNat) 0x0#64 0#64 0#64 0#64 0#64
+       Gen.Murmur.tailFinish d length r.2.2.1 r.2.2.2 r.1 r.2.1 nBlocks) := by
+  rfl
+
+/-- THE WHOLE FUNCTION: `murmur.Murmur3H1` as re-translated from the current source (block loop with its header,
+    `getBlock` as the trusted extern, tail switch, finalisation) is the model `Murmur.murmur3H1`, for every input
+    below 2^60 bytes. -/
+theorem murmur3H1 (data : List UInt8) (hl : data.length < 2^60) :
+    Gen.Murmur.Murmur3H1 (data.map (·.toBitVec)) = Murmur.murmur3H1 data := by
+  rw [whole_unfold]
+  simp only [List.length_map]
+  rw [sdiv16 _ (by omega)]
+  have hfuel : (BitVec.ofNat 64 (data.length / 16) - 0x0#64).toNat = data.length / 16 := by
+    simp; omega
+  rw [hfuel]
+  have hl := loop data (data.length / 16) (by omega) (data.length / 16) 0 0#64 0#64 0#64 0#64 (by omega)
+  simp only at hl
+  have h1 := congrArg Prod.fst hl
+  have h2 := congrArg Prod.snd hl
+  simp only at h1 h2
+  rw [show (0x0#64 : BitVec 64) = BitVec.ofNat 64 0 from rfl, h1, h2]
+  rw [tailFinish data _ _ _ _ (by omega)]
+  rfl
+
+
+/-- the regenerated code itself computes Cassandra's hash: composition with the property theorem `C09_murmur` -/
+theorem murmur3H1_is_cassandra (data : List UInt8) (hl : data.length < 2^60) :
+    Gen.Murmur.Murmur3H1 (data.map (·.toBitVec)) = Murmur.Spec.cassandraH1 data := by
+  rw [murmur3H1 data hl]; exact Murmur.murmur3H1_eq_cassandra data
+
+example : Gen.Murmur.Murmur3H1 ([104, 101, 108, 108, 111].map (fun (b : UInt8) => b.toBitVec)) = 0xcbd8a7b341bd9b02#64 := by decide
 
 end GenTie.C09
